@@ -100,6 +100,10 @@ CHECKS = {
    tech="law instances over TLC-defined Unicode alphabets evaluated by the real functions; each law is a TLA+ predicate over code-point sequences / small collections (FnLaws.tla)",
    text="Strings over {a, B, sharp-s, dotted-I, space, tab, newline, ',', e-acute, emoji, nbsp, em-space, _, -} up to length 2 (thorough 3) plus seeded longer ones; arrays with duplicates, nulls and empties; objects with multi-byte, spaced and empty keys. Laws checked by TLC on the real results: idempotence of upcase/downcase/camelcase/snakecase/kebabcase/pascalcase/screamingsnakecase/strip_whitespace; strip_whitespace = input minus maximal leading/trailing White_Space runs; join(split(s,d),d) = s; starts_with/ends_with/contains <=> prefix/suffix/infix of the code-point sequences; truncate length bound, prefix property and identity for short inputs; strlen = number of scalar values; slice = positional sub-sequence incl. negative bounds; unique = first occurrences in order; compact removes exactly null/empty items; keys/values/length agree with the object; merge(a,b) has b's values on shared keys and the union of keys.",
    note="trusted: the harness' code-point extraction (Rust chars()); White_Space restricted to the alphabet's characters"),
+ "C36": dict(engine="C", cat="exploration", design="6/C36",
+   tech="Tz.tla states the runtime's frame condition (which functions read the configured timezone and when a call is pinned); time expressions x formats x instants are evaluated by the real functions under six configured timezones and TLC requires every call classified insensitive to agree across them",
+   text="Tz.tla lists the only readers of Context::timezone (parse_timestamp without a timezone argument, the syslog / access-log parsers on inputs without an offset, get_timezone_name) and classifies a call as zone-sensitive only if it is one of them and neither a `timezone:` argument, an offset in the format (%z %:z %+), nor an offset in the input pins the zone. 930 expressions - format_timestamp / parse_timestamp over 8 formats with and without explicit offsets and timezone arguments, unix-timestamp conversions for every unit, to_string/to_int/to_float/encode_json of timestamps, the log parsers, expressions that do not touch time - on 10 instants incl. DST gaps and overlaps are each evaluated under UTC, Asia/Kolkata, America/New_York, Europe/London, Pacific/Chatham and local; TLC checks that every insensitive one yields identical results (the 32 sensitive ones are observed to really differ, so the classification is not vacuous).",
+   note="trusted: the TzReaders set (from reading the tree; a NEW reader of the timezone is exactly what the check is meant to expose); `%s` is conservatively treated as unpinned"),
 }
 
 NA = {
